@@ -8,43 +8,14 @@ Definition crossing_count (p : Polygon2R) (pt v : V2) : nat :=
   length (filter (crosses (mkLR2 pt v)) (Polygon2D_segments p)).
 
 Lemma count_fold (f : LR2 -> bool) l : forall n : nat,
-  fold_left (fun n_int u_s => let n_int := (if f u_s then let n_int := (n_int + 1) in n_int else n_int) in n_int) l (inject_Z (Z.of_nat n))
-  == inject_Z (Z.of_nat (n + length (filter f l))).
+  fold_left (fun n_int u_s => let n_int := (if f u_s then let n_int := (n_int + (1%Z))%Z in n_int else n_int) in n_int) l (Z.of_nat n)
+  = Z.of_nat (n + length (filter f l)).
 Proof.
   induction l as [|x r IH]; intros n; cbn [fold_left filter].
   - rewrite Nat.add_0_r. reflexivity.
   - destruct (f x); cbn [length].
-    + assert (E : inject_Z (Z.of_nat n) + 1 == inject_Z (Z.of_nat (S n))).
-      { rewrite Nat2Z.inj_succ. unfold Z.succ. rewrite inject_Z_plus. reflexivity. }
-      transitivity (fold_left (fun n_int u_s => let n_int := (if f u_s then let n_int := (n_int + 1) in n_int else n_int) in n_int) r (inject_Z (Z.of_nat (S n)))).
-      * clear IH. generalize (inject_Z (Z.of_nat n) + 1) (inject_Z (Z.of_nat (S n))) E. clear E.
-        induction r as [|y r IHr]; intros a b E; cbn [fold_left]; [exact E|].
-        apply IHr. destruct (f y); [rewrite E; reflexivity| exact E].
-      * rewrite IH. replace (S n + length (filter f r))%nat with (n + S (length (filter f r)))%nat by lia. reflexivity.
+    + replace (Z.of_nat n + 1)%Z with (Z.of_nat (S n)) by lia. rewrite IH. f_equal. lia.
     + apply IH.
-Qed.
-
-Global Instance py_mod_proper : Proper (Qeq ==> Qeq ==> Qeq) py_mod.
-Proof.
-  intros a b E c d F. unfold py_mod.
-  assert (H : Qfloor (a / c) = Qfloor (b / d)) by (apply Qfloor_comp; rewrite E, F; reflexivity).
-  rewrite H, E, F. reflexivity.
-Qed.
-
-Lemma py_mod2_zero_iff (n : nat) : py_mod (inject_Z (Z.of_nat n)) 2 == 0 <-> Nat.even n = true.
-Proof.
-  unfold py_mod. set (z := Z.of_nat n).
-  assert (F : Qfloor (inject_Z z / 2) = (z / 2)%Z).
-  { unfold Qdiv, Qmult, Qinv, inject_Z, Qfloor. cbn. rewrite Z.mul_1_r. reflexivity. }
-  rewrite F.
-  assert (E : inject_Z z - 2 * inject_Z (z / 2) == inject_Z (z mod 2)).
-  { change 2 with (inject_Z 2). rewrite <- inject_Z_mult. unfold Qminus. rewrite <- inject_Z_opp, <- inject_Z_plus.
-    apply inject_Z_injective. rewrite Z.mod_eq by lia. lia. }
-  rewrite E. change 0 with (inject_Z 0). rewrite inject_Z_injective.
-  rewrite Nat.even_spec. unfold z. split.
-  - intros H. exists (Z.to_nat (Z.of_nat n / 2)).
-    assert (Z.of_nat n = 2 * (Z.of_nat n / 2))%Z by (rewrite (Z.div_mod (Z.of_nat n) 2) at 1 by lia; lia). lia.
-  - intros [k ->]. rewrite Nat2Z.inj_mul. change (Z.of_nat 2) with 2%Z. rewrite Z.mul_comm. apply Z.mod_mul. lia.
 Qed.
 
 Theorem is_point_inside_is_crossing_parity p pt v :
@@ -53,13 +24,17 @@ Proof.
   unfold Polygon2D_is_point_inside, crossing_count, LineSegment2D_op_init. cbv zeta.
   set (ray := {| lr2p := pt; lr2v := v |}).
   pose proof (count_fold (fun s => does_intersection_exist_line2d_seg_ray s ray) (Polygon2D_segments p) 0) as C.
-  change (inject_Z (Z.of_nat 0)) with 0 in C. cbn [Nat.add] in C.
-  unfold crosses. set (cnt := length (filter _ _)) in *.
-  destruct (Qeq_bool _ 0) eqn:E.
-  - apply Qeq_bool_iff in E. rewrite C in E. apply py_mod2_zero_iff in E.
-    unfold Nat.odd. rewrite E. reflexivity.
-  - apply Qeq_bool_false_iff in E. rewrite C in E. unfold Nat.odd.
-    destruct (Nat.even cnt) eqn:Ev; [exfalso; apply E; apply py_mod2_zero_iff; exact Ev| reflexivity].
+  change (Z.of_nat 0) with 0%Z in C. cbn [Nat.add] in C. rewrite C.
+  unfold crosses. set (cnt := length (filter _ _)).
+  rewrite <- Nat.negb_even.
+  destruct (Nat.even cnt) eqn:Ev.
+  - apply Nat.even_spec in Ev. destruct Ev as [k ->].
+    replace (Z.of_nat (2 * k) mod 2)%Z with 0%Z by (rewrite Nat2Z.inj_mul, Z.mul_comm, Z.mod_mul; lia). reflexivity.
+  - assert (Od : Nat.odd cnt = true) by (rewrite <- Nat.negb_even, Ev; reflexivity).
+    apply Nat.odd_spec in Od. destruct Od as [k ->].
+    replace (Z.of_nat (2 * k + 1) mod 2)%Z with 1%Z; [reflexivity|].
+    rewrite Nat2Z.inj_add, Nat2Z.inj_mul. change (Z.of_nat 2) with 2%Z. change (Z.of_nat 1) with 1%Z.
+    rewrite Z.add_comm, Z.mul_comm, Z.mod_add by lia. reflexivity.
 Qed.
 
 (* each crossing test: d <> 0 and the unique solution has 0 <= ua <= 1 on the segment, 0 <= ub on the ray *)
